@@ -282,6 +282,7 @@ struct nsync_note_s_ {
         nsync_atomic_uint32_ notified;   /* non-zero if the note has been notified */
         struct nsync_note_s_ *parent;     /* points to parent, if any */
         nsync_dll_element_ *children; /* list of children */
+        int children_adopted;       /* children were adopted since the last scan of "children" */
         nsync_dll_element_ *waiters;  /* list of waiters */
 };
 
